@@ -27,8 +27,13 @@ static bool gen_c05(uint64_t seed, const std::string &tier, uint64_t i, Plan &p)
     for (uint64_t q = 0; q < l; q++) { payload += kTok[idx % 6]; idx /= 6; }
     lab = "enumerated length " + std::to_string(l);
   } else {
-    int kind = (int)r.below(4);
-    if (kind == 0) { size_t n = (size_t)r.range(7, 40); for (size_t q = 0; q < n; q++) payload += kTok[r.below(6)]; lab = "random tokens"; }
+    int kind = (int)r.below(5);
+    if (kind == 4) {   // long lines around the RFC 5321 line limits and the daemon's 1024-byte input buffer, dots and CRs at the edges
+      int nl = (int)r.range(1, 3);
+      for (int q = 0; q < nl; q++) { size_t len = (size_t)r.pick(std::vector<int>{996, 998, 999, 1000, 1001, 1022, 1023, 1024, 1025, 2048, 5000}) + (size_t)r.below(3); std::string line; for (size_t c = 0; c < len; c++) line += r.chance(0.03) ? '.' : r.chance(0.01) ? '\r' : (char)('a' + r.below(26));
+        if (r.chance(0.5)) line[0] = '.'; if (r.chance(0.5)) line[len - 1] = r.chance(0.5) ? '.' : '\r'; payload += line + "\r\n"; }
+      lab = "long lines"; }
+    else if (kind == 0) { size_t n = (size_t)r.range(7, 40); for (size_t q = 0; q < n; q++) payload += kTok[r.below(6)]; lab = "random tokens"; }
     else if (kind == 1) { size_t n = (size_t)r.range(100, 4096); for (size_t q = 0; q < n; q++) { int t = (int)r.below(20); payload += t < 2 ? "\r\n" : t == 2 ? "." : t == 3 ? "\r" : t == 4 ? "\r\n." : std::string(1, (char)('a' + r.below(26))); } lab = "random long"; }
     else {   // a conforming encoding of a random message (RFC 5321 sender): CRLF line ends, leading dots doubled
       std::string msg = gen_body(r.next(), (size_t)r.range(0, 3000)); std::string enc; size_t q = 0; bool bol = true;
